@@ -787,6 +787,14 @@ def run(prop, seed, budget, ctx):
                       "C14": "the coerced run accepts what the strict run accepts, with the same value; a numeric string is converted inside the alternative"}[prop]
         return {"evaluations": len(cases) + dn, "distinct_nontrivial": len(distinct), "rule": RULES[prop] + extra_rule, "samples": samples,
                 "histograms": dict(hist), "in_scope": in_scope, "correspondence": {"compared_with_model": k_checked, "disagreements": k_bad}, "failures": failures}
+    if prop == "C02":
+        import engine_validate
+        vf, vn, vd = engine_validate.e2e_locations(seed, budget)
+        for f in vf: hist["P:" + f["why"][0]] += 1
+        failures += vf; distinct |= vd; hist["validator-classes-under-an-aliaser"] = vn
+        return {"evaluations": len(cases) + vn, "distinct_nontrivial": len(distinct), "rule": RULES[prop] + "; plus dataclasses with validators (raise / yield, field, discard) "
+                "deserialized under a dynamic aliaser: every location is the aliased path", "samples": samples,
+                "histograms": dict(hist), "in_scope": in_scope, "correspondence": {"compared_with_model": k_checked, "disagreements": k_bad}, "failures": failures}
     if prop == "C08":
         sf, sn, sd = ser_part(seed, budget)
         failures += sf; hist["serialization-cases"] = sn
@@ -802,6 +810,9 @@ def run(prop, seed, budget, ctx):
 
 
 def replay(prop, case, ctx):
+    if case.get("part") == "deserialize" and "validators" in case:
+        import engine_validate
+        return engine_validate.replay(prop, case, ctx)
     mod = build_module("\n".join(HEADER + case["src"]), "replay"); ns = dict(vars(mod))
     tp = eval(case["py"], ns)
     class T: pass
